@@ -1,0 +1,121 @@
+//go:build verif
+
+// Contracts for govc (comment-only file; see /verif/DESIGN.md section 3).
+package paillier
+
+// bitlen(x): number of bits of |x| for a *saferith.Int / *saferith.Nat object (trusted spec of TrueLen).
+//@ spec fn bitlen(Int) Int
+
+// A ciphertext object always carries a number (set by the constructors here and by UnmarshalBinary).
+//@ typeinv[C05] Ciphertext := self.c != nil
+
+//@ pred pkok(pk *PublicKey) := pk != nil && pk.n != nil && pk.n.Modulus != nil && pk.nSquared != nil && pk.nSquared.Modulus != nil && pk.nNat != nil && pk.nPlusOne != nil
+//@ pred pkvok(pk PublicKey) := pk.n != nil && pk.n.Modulus != nil && pk.nSquared != nil && pk.nSquared.Modulus != nil && pk.nNat != nil && pk.nPlusOne != nil
+
+//@ func NewPublicKey
+//@   nopanic[C05]
+//@   modifies nothing
+//@   allocates
+//@   requires n != nil
+//@   ensures pkok(result)
+
+//@ func ValidateN
+//@   nopanic[C05]
+//@   modifies nothing
+//@   allocates
+
+//@ func (PublicKey).ValidateCiphertexts
+//@   nopanic[C05]
+//@   requires pkvok(pk)
+//@   modifies nothing
+//@   ensures result ==> each(cts, c, c != nil)
+//@   loop 1: invariant each(cts[:rangeindex+1], c, c != nil)
+
+// Documented panic: encrypting outside [-(N-1)/2, (N-1)/2]. For a validated 2048-bit N every
+// m with at most 2046 bits is inside the range (A-NT); the guard itself is under C12.
+//@ func (PublicKey).EncWithNonce
+//@   nopanic[C05]
+//@   modifies nothing
+//@   allocates
+//@   requires pkvok(pk) && m != nil && nonce != nil && bitlen(m) <= 2046
+//@   panic_unreachable_under_requires
+//@   ensures result != nil
+
+//@ func (*PublicKey).N
+//@   nopanic[C05]
+//@   requires pkok(pk)
+//@   modifies nothing
+//@   ensures result != nil && result == pk.n.Modulus
+
+//@ func (*PublicKey).Modulus
+//@   nopanic[C05]
+//@   requires pk != nil
+//@   modifies nothing
+//@   ensures result == pk.n
+
+//@ func (*PublicKey).ModulusSquared
+//@   nopanic[C05]
+//@   requires pk != nil
+//@   modifies nothing
+//@   ensures result == pk.nSquared
+
+//@ func (*PublicKey).WriteTo
+//@   nopanic[C05]
+//@   modifies nothing
+//@   allocates
+//@   requires w != nil && (pk != nil ==> pkok(pk))
+
+//@ func (PublicKey).Equal
+//@   nopanic[C05]
+//@   modifies nothing
+//@   allocates
+//@   requires pkvok(pk) && pkok(other)
+
+//@ func (*Ciphertext).Add
+//@   nopanic[C05]
+//@   modifies nothing
+//@   allocates
+//@   requires ct != nil && pkok(pk)
+//@   ensures result == ct
+
+//@ func (*Ciphertext).Mul
+//@   nopanic[C05]
+//@   modifies Ciphertext.c
+//@   requires ct != nil && pkok(pk)
+//@   ensures result == ct
+
+//@ func (*Ciphertext).Equal
+//@   nopanic[C05]
+//@   requires ct != nil && ctA != nil
+//@   modifies nothing
+
+//@ func (Ciphertext).Clone
+//@   nopanic[C05]
+//@   modifies nothing
+//@   allocates
+//@   requires ct.c != nil
+//@   ensures result != nil
+
+//@ func (*Ciphertext).WriteTo
+//@   nopanic[C05]
+//@   modifies nothing
+//@   allocates
+//@   requires w != nil
+
+//@ func (*Ciphertext).MarshalBinary
+//@   nopanic[C05]
+//@   modifies nothing
+//@   allocates
+//@   requires ct != nil
+
+//@ func (*Ciphertext).UnmarshalBinary
+//@   nopanic[C05]
+//@   modifies Ciphertext.c
+//@   requires ct != nil
+
+//@ func (*Ciphertext).Nat
+//@   nopanic[C05]
+//@   modifies nothing
+//@   allocates
+//@   requires ct != nil
+//@   ensures result != nil
